@@ -285,6 +285,12 @@ func (s *Spec) Step(ctx context.Context, st *State, pending interface{}, c *Cont
 			bs = e.Bs
 		} else {
 			// Bind "actionError" to the error string.
+			//
+			// Work on a copy: bs is still the caller's
+			// st.Bs at this point, and Step must not
+			// modify the state it was given.  (Copy also
+			// turns nil bindings into empty bindings.)
+			bs = bs.Copy()
 			bs.Extend("actionError", err.Error())
 			bs.Extend("error", err.Error())
 			if !s.ActionErrorBranches {
@@ -658,7 +664,9 @@ func (s *Spec) Walk(ctx context.Context, st *State, pendings []interface{}, c *C
 			if st.NodeName == "error" {
 				// We're already at an error.
 			} else {
-				errorBs, _ := st.Bs.Extendm("error", err.Error(),
+				// Extend a copy, not the state we were
+				// given (which could also have nil Bs).
+				errorBs, _ := st.Bs.Copy().Extendm("error", err.Error(),
 					"lastNode", st.NodeName,
 					"lastBindings", st.Bs.Copy())
 				stride.To = &State{
